@@ -10,14 +10,44 @@
     (20 loops: parcpy/parSetZero; NTT butterfly batches with the transposing / reflecting copy; block scatter; the four
     bit-reversal loops; Merkle leaf and level loops of the six tree builders), for all shapes.
   * parcpy / parSetZero end to end (Props/C17.lean: C17_parcpy for every order of the chunks).
-  What is NOT a theorem: that the compiled loop bodies access exactly these footprints (the footprints are hand-written
-  from the loops).  That tie is OBSERVED by the C12 check: ThreadSanitizer over a pthread stand-in for the OpenMP runtime
+  * THE EXECUTABLE MODEL'S LOOPS HAVE THESE FOOTPRINTS (`C12_model_…`, second half of the file).  The hand model of the
+    transforms (Model/Ntt.lean, tied to the C++ by the differential campaigns of C03/C04/C05/C19) runs every parallel
+    loop as a sequential fold of a named body.  For these bodies, derived from the model's definitions with NO
+    hypothesis on the buffers (Lemmas/NttPar*.lean):
+      - butterfly batches: `passBatch … b` changes only the rows `[b·B,(b+1)·B)` of `a` and the rows `σ(x·nB+b)` of `a2`,
+        and what it leaves there depends only on the rows `[b·B,(b+1)·B)` of `a` (`C12_model_batch_frame/_dep`); its
+        footprints are, word for word, `batchR`/`batchW` (`C12_model_batch_footprint`), hence by `C12_ntt_batches`
+        two batches are independent (`C12_model_batches_indep`) and the batches of a pass can be folded in ANY order
+        (`C12_model_batches_any_order`, no side condition; `C12_model_pass_any_order`);
+      - block scatter, out-of-place bit reversal (both variants), in-place bit reversal (both variants, 2^d rows, d ≤ 32):
+        rows in any order (`C12_model_scatter_any_order` [column block inside a row], `C12_model_reversal_out_any_order`,
+        `C12_model_reversal_inplace_any_order`), through `C12_row_to_row` / `C12_inplace_reversal`;
+      - whole calls: `NTT_iters`, `NTT`, `INTT`, `extendPol` with EVERY parallel loop of every column block in an
+        arbitrary order give the model's result, aborts included (`C12_model_nttIters_any_order`, `C12_model_ntt_any_order`,
+        `C12_model_intt_any_order`, `C12_model_extendPol_any_order`; log2 size ≤ 32).  The order-parametrised texts
+        (`nttItersIn`, `nttIn`, …, Lemmas/NttParIters.lean) are copies of the model's functions with folds over given
+        lists; `nttIters_eq_with` shows by `rfl` that the model's `nttIters` is the same text.
+      - Merkle: the model (Model/Sponge.lean) is purely functional (no indexed writes), so: (i) each word of a level is a
+        function of the two children of its node only (`C12_model_merkle_dependency`); (ii) an imperative rendering of
+        the leaf / level loops on one tree buffer (Lemmas/MerklePar.lean, hand-written, not executed against the C++) has
+        the footprints of `C12_merkle_leaves` / `C12_merkle_level`, runs in any order, and fills the buffer with the
+        model's `merkleTree` (`C12_model_merkle_leaves_any_order`, `_level_any_order`, `_tree_any_order`).
+    Order independence is at ITERATION granularity (any assignment of iterations to members, any order); interleavings of
+    individual accesses follow from the disjointness of the footprints, as before.
+  What is NOT a theorem: that the COMPILED loop bodies access exactly these footprints.  The link is now: compiled code
+  ≈ model (differential campaigns, sequential) and model loop bodies ⊨ footprints (theorems above); the compiled accesses
+  themselves are OBSERVED by the C12 check: ThreadSanitizer over a pthread stand-in for the OpenMP runtime
   (real accesses, real happens-before), controlled sequential execution of the team members in permuted orders and team
   sizes (outputs bit-identical to the single-member run), and real libgomp teams of 1,2,3,5,16 threads.
 -/
 import GoldilocksVerif.Lemmas.Bernstein
 import GoldilocksVerif.Lemmas.NttBr
 import GoldilocksVerif.Lemmas.ParCopyL
+import GoldilocksVerif.Lemmas.NttParBatch
+import GoldilocksVerif.Lemmas.NttParRev
+import GoldilocksVerif.Lemmas.NttParIters
+import GoldilocksVerif.Lemmas.NttTop
+import GoldilocksVerif.Lemmas.MerklePar
 
 namespace GoldilocksVerif.C12
 open GoldilocksVerif GoldilocksVerif.Par
@@ -204,5 +234,440 @@ theorem C12_parcpy_chunks (Dst Src size : Nat) (nt : Int) (i i' : Nat) (hSD : Sr
 -- the hypotheses are satisfiable: two batches of a pass on 8 rows, B = 4, nB = 2, identity copy
 example : FootIndep (batchR 0 (· = 9) 4 0) (batchW 0 1 id 4 2 0) (batchR 0 (· = 9) 4 1) (batchW 0 1 id 4 2 1) :=
   C12_ntt_batches 0 1 (· = 9) id 4 2 (by decide) (by decide) (fun _ _ _ _ h => h) 0 1 (by decide) (by decide) (by decide)
+
+/-! ## The loops of the executable model (Model/Ntt.lean) really have these footprints
+
+  The model executes every `omp parallel for` loop as a sequential fold of a named body.  Below, the bodies are shown to
+  have the footprints of the theorems above (frame + dependency, derived from the model's definitions, no hypothesis on
+  the buffers), and therefore — through `C12_ntt_batches`, `C12_row_to_row`, `C12_inplace_reversal` and the order
+  theorem on buffer states (`Par.any_order`, Lemmas/NttPar.lean) — folding them in ANY order gives the model's result. -/
+
+section Model
+open GoldilocksVerif.Model.Ntt hiding inttIdx
+
+/-! ### butterfly batches: `passBatch` (ntt_goldilocks.cpp:81) -/
+
+/-- (a) `passBatch … b` keeps the sizes and changes only the rows `[b·B, (b+1)·B)` of the first buffer (B = 2^sInc) and
+    the rows `σ (x·nB + b)`, `x < B`, of the second (nB = size / B; σ = identity, or `inttIdx · size` in the last pass of an
+    inverse transform: `passSigma`) -/
+theorem C12_model_batch_frame (o : Obj) (size domainPow ncols s sInc : Nat) (lastInv extend : Bool) (b : Nat) (st : Buf × Buf) :
+    (passBatch o size domainPow ncols s sInc lastInv extend b st).1.size = st.1.size ∧
+    (passBatch o size domainPow ncols s sInc lastInv extend b st).2.size = st.2.size ∧
+    (∀ j, ¬ rowsW ncols (batchRows (2 ^ sInc) b) j →
+      (passBatch o size domainPow ncols s sInc lastInv extend b st).1.getD j 0#64 = st.1.getD j 0#64) ∧
+    (∀ j, ¬ rowsW ncols (copyRows (passSigma size lastInv) (2 ^ sInc) (size / 2 ^ sInc) b) j →
+      (passBatch o size domainPow ncols s sInc lastInv extend b st).2.getD j 0#64 = st.2.getD j 0#64) := by
+  have hF := Model.Ntt.batchF_local o domainPow ncols s sInc b
+  have hG := Model.Ntt.batchG_writer o size domainPow ncols sInc lastInv extend b
+  rw [Model.Ntt.passBatch_split]
+  exact ⟨hF.size _, hG.size _ _, fun j hj => hF.frame _ j hj, fun j hj => hG.frame _ _ j hj⟩
+
+/-- (b) what `passBatch … b` leaves in the rows it writes depends only on the rows `[b·B, (b+1)·B)` of the first buffer
+    (and on the sizes; the tables are in the object `o`, which is not part of the state) -/
+theorem C12_model_batch_dep (o : Obj) (size domainPow ncols s sInc : Nat) (lastInv extend : Bool) (b : Nat) (st st' : Buf × Buf)
+    (hs1 : st.1.size = st'.1.size) (hs2 : st.2.size = st'.2.size)
+    (h : ∀ j, rowsW ncols (batchRows (2 ^ sInc) b) j → st.1.getD j 0#64 = st'.1.getD j 0#64) :
+    (∀ j, rowsW ncols (batchRows (2 ^ sInc) b) j →
+      (passBatch o size domainPow ncols s sInc lastInv extend b st).1.getD j 0#64
+        = (passBatch o size domainPow ncols s sInc lastInv extend b st').1.getD j 0#64) ∧
+    (∀ j, rowsW ncols (copyRows (passSigma size lastInv) (2 ^ sInc) (size / 2 ^ sInc) b) j →
+      (passBatch o size domainPow ncols s sInc lastInv extend b st).2.getD j 0#64
+        = (passBatch o size domainPow ncols s sInc lastInv extend b st').2.getD j 0#64) := by
+  have hF := Model.Ntt.batchF_local o domainPow ncols s sInc b
+  have hG := Model.Ntt.batchG_writer o size domainPow ncols sInc lastInv extend b
+  rw [Model.Ntt.passBatch_split, Model.Ntt.passBatch_split]
+  have hd := hF.dep _ _ hs1 h
+  exact ⟨hd, hG.dep _ _ _ _ hs2 hd⟩
+
+/-- the iteration `batchIter … b` (Lemmas/NttParBatch.lean) runs `passBatch … b`, and its footprints are, word for word,
+    the footprints `batchR` / `batchW` of `C12_ntt_batches` (buffer 0 = `a`, buffer 1 = `a2`, no table in the state) -/
+theorem C12_model_batch_footprint (o : Obj) (size domainPow ncols s sInc : Nat) (lastInv extend : Bool) (b : Nat) :
+    (∀ st, (batchIter o size domainPow ncols s sInc lastInv extend b).run st
+        = passBatch o size domainPow ncols s sInc lastInv extend b st) ∧
+    (∀ l, (batchIter o size domainPow ncols s sInc lastInv extend b).R l
+        ↔ wordsOf ncols (batchR 0 (fun _ => False) (2 ^ sInc) b) l) ∧
+    (∀ l, (batchIter o size domainPow ncols s sInc lastInv extend b).W l
+        ↔ wordsOf ncols (batchW 0 1 (passSigma size lastInv) (2 ^ sInc) (size / 2 ^ sInc) b) l) := by
+  refine ⟨Model.Ntt.batchIter_run o size domainPow ncols s sInc lastInv extend b, ?_, ?_⟩
+  · rintro ⟨buf, j⟩
+    rw [Model.Ntt.batchIter_R]
+    unfold wordsOf batchR batchRows
+    simp only [or_false]
+  · rintro ⟨buf, j⟩
+    rw [Model.Ntt.batchIter_W]
+    unfold wordsOf batchW batchRows copyRows
+    exact Iff.rfl
+
+theorem C12_model_sigma_inj (size : Nat) (lastInv : Bool) (i j : Nat) (hi : i < size) (hj : j < size)
+    (h : passSigma size lastInv i = passSigma size lastInv j) : i = j := by
+  unfold passSigma at h
+  cases lastInv with
+  | false => simpa using h
+  | true =>
+    simp only [if_true] at h
+    unfold Model.Ntt.inttIdx at h
+    split at h <;> split at h <;> omega
+
+/-- two different batches of a pass are independent iterations of the model -/
+theorem C12_model_batches_indep (o : Obj) (size domainPow ncols s sInc : Nat) (lastInv extend : Bool) (b b' : Nat)
+    (hb : b < size / 2 ^ sInc) (hb' : b' < size / 2 ^ sInc) (hne : b ≠ b') :
+    FootIndep (batchIter o size domainPow ncols s sInc lastInv extend b).R
+      (batchIter o size domainPow ncols s sInc lastInv extend b).W
+      (batchIter o size domainPow ncols s sInc lastInv extend b').R
+      (batchIter o size domainPow ncols s sInc lastInv extend b').W := by
+  have hle : 2 ^ sInc * (size / 2 ^ sInc) ≤ size := Nat.mul_div_le size (2 ^ sInc)
+  have h := C12_ntt_batches 0 1 (fun _ => False) (passSigma size lastInv) (2 ^ sInc) (size / 2 ^ sInc) (by decide)
+    ⟨fun h => h, fun h => h⟩
+    (fun i j hi hj e => C12_model_sigma_inj size lastInv i j (by omega) (by omega) e) b b' hb hb' hne
+  obtain ⟨_, r1, w1⟩ := C12_model_batch_footprint o size domainPow ncols s sInc lastInv extend b
+  obtain ⟨_, r2, w2⟩ := C12_model_batch_footprint o size domainPow ncols s sInc lastInv extend b'
+  exact (h.words ncols).congr (fun l => (r1 l).1) (fun l => (w1 l).1) (fun l => (r2 l).1) (fun l => (w2 l).1)
+
+/-- **the batches of a pass in any order**: for every pass `(s, sInc)`, every buffer state and every permutation `bs'` of
+    the batch indices `0 … nBatches-1` (nBatches = size / 2^sInc as in the model), executing the batches in the order `bs'`
+    gives the same two buffers as the model's sequential loop.  No side condition. -/
+theorem C12_model_batches_any_order (o : Obj) (size domainPow ncols s sInc : Nat) (lastInv extend : Bool) (st0 : Buf × Buf)
+    (bs' : List Nat) (hp : bs'.Perm (List.range (size / 2 ^ sInc))) :
+    bs'.foldl (fun st b => passBatch o size domainPow ncols s sInc lastInv extend b st) st0
+      = (List.range (size / 2 ^ sInc)).foldl (fun st b => passBatch o size domainPow ncols s sInc lastInv extend b st) st0 := by
+  have e : (fun (st : Buf × Buf) b => passBatch o size domainPow ncols s sInc lastInv extend b st)
+      = (fun st b => (batchIter o size domainPow ncols s sInc lastInv extend b).run st) := by
+    funext st b; exact (Model.Ntt.batchIter_run o size domainPow ncols s sInc lastInv extend b st).symm
+  rw [e]
+  refine (any_order (batchIter o size domainPow ncols s sInc lastInv extend) _ _ hp.symm ?_ st0).symm
+  intro b hb b' hb' hne
+  exact C12_model_batches_indep o size domainPow ncols s sInc lastInv extend b b' (List.mem_range.1 hb) (List.mem_range.1 hb') hne
+
+/-- a whole pass of `NTT_iters` (the model's `pass`: batch loop + pointer swap) with its batches in any order -/
+theorem C12_model_pass_any_order (o : Obj) (size domainPow ncols : Nat) (inverse extend : Bool) (st : Buf × Buf × Bool)
+    (p : Nat × Nat) (bs' : List Nat) (hp : bs'.Perm (List.range (size / 2 ^ p.2))) :
+    pass o size domainPow ncols inverse extend st p =
+      ((bs'.foldl (fun st b => passBatch o size domainPow ncols p.1 p.2 (!(p.1 + p.2 ≤ domainPow) && inverse) extend b st)
+          (st.1, st.2.1)).2,
+       (bs'.foldl (fun st b => passBatch o size domainPow ncols p.1 p.2 (!(p.1 + p.2 ≤ domainPow) && inverse) extend b st)
+          (st.1, st.2.1)).1, !st.2.2) := by
+  rw [C12_model_batches_any_order o size domainPow ncols p.1 p.2 _ extend (st.1, st.2.1) bs' hp]
+  unfold pass
+  simp only
+  rw [iter_eq_foldl]
+
+/-! ### block scatter: `scatterBlock` (ntt_goldilocks.cpp:219) -/
+
+/-- the rows of the scatter loop in any order.  `oc + aux ≤ ncols`: the column block lies inside a row of `dst`
+    (without it two iterations could write the same word). -/
+theorem C12_model_scatter_any_order (dst d : Buf) (size ncols oc aux : Nat) (hoc : oc + aux ≤ ncols)
+    (is' : List Nat) (hp : is'.Perm (List.range size)) :
+    is'.foldl (fun dst ie => copyRow dst (ie * ncols + oc) d (ie * aux) aux) dst = scatterBlock dst d size ncols oc aux := by
+  rw [Model.Ntt.scatterBlock_eq, iter_eq_foldl]
+  refine writers_any_order (fun ie => Model.Ntt.scatterBody ncols oc aux ie) _ _
+    (fun ie => Model.Ntt.scatterBody_writer ncols oc aux ie) _ _ hp ?_ d dst
+  intro i _ i' _ hne
+  -- cells: row `r` of buffer 0 (`dst_`) = `aux` words from `r·aux`; row `r` of buffer 1 (`dst`) = `aux` words from `r·ncols + oc`
+  have h := (C12_row_to_row 0 1 (fun i => i) (by decide) i i' hne).lift
+    (fun c j => if c.1 = 1 then c.2 * ncols + oc ≤ j ∧ j < c.2 * ncols + oc + aux else c.2 * aux ≤ j ∧ j < c.2 * aux + aux)
+    (by
+      rintro b r r' j hw c c'
+      have hb : b = 1 := by
+        rcases hw with hw | hw <;> exact (Prod.mk.inj hw).1
+      subst hb
+      simp only [if_true] at c c'
+      exact row_unique ncols r r' j (by omega) (by omega) (by omega) (by omega))
+  refine h.congr ?_ ?_ ?_ ?_
+  all_goals
+    rintro ⟨b, j⟩ ⟨hb, hj⟩
+    simp only at hb hj
+    subst hb
+    exact ⟨_, rfl, by simpa using hj⟩
+
+/-! ### bit reversal, destination distinct from the source (ntt_goldilocks.cpp:254, 267) -/
+
+/-- both out-of-place loops (plain, and zero-extending when `extension > 1`): the rows in any order.  `revOutBody` is the
+    loop body (Lemmas/NttParRev.lean); for `is' = List.range size` this is the model's own loop. -/
+theorem C12_model_reversal_out_any_order (o : Obj) (dst src : Buf) (size oc nc nca : Nat)
+    (is' : List Nat) (hp : is'.Perm (List.range size)) :
+    reversePermutation o dst src false size oc nc nca
+      = .ok (is'.foldl (fun d i => revOutBody o size oc nc nca i src d) dst) := by
+  rw [Model.Ntt.reversePermutation_out_eq, iter_eq_foldl]
+  congr 1
+  refine (writers_any_order (fun i => revOutBody o size oc nc nca i) _ _
+    (fun i => Model.Ntt.revOutBody_writer o size oc nc nca i) _ _ hp ?_ src dst).symm
+  intro i _ i' _ hne
+  have h := (C12_row_to_row 0 1 (fun i => br i (log2 size)) (by decide) i i' hne).lift
+    (fun c j => if c.1 = 1 then c.2 * nc ≤ j ∧ j < c.2 * nc + nc else c.2 * nca + oc ≤ j ∧ j < c.2 * nca + oc + nc)
+    (by
+      rintro b r r' j hw c c'
+      have hb : b = 1 := by
+        rcases hw with hw | hw <;> exact (Prod.mk.inj hw).1
+      subst hb
+      simp only [if_true] at c c'
+      exact row_unique nc r r' j c.1 c.2 c'.1 c'.2)
+  refine h.congr ?_ ?_ ?_ ?_
+  all_goals
+    rintro ⟨b, j⟩ ⟨hb, hj⟩
+    simp only at hb hj
+    subst hb
+    exact ⟨_, rfl, by simpa using hj⟩
+
+/-! ### bit reversal in place (ntt_goldilocks.cpp:289, 311) -/
+
+/-- iteration `i` of the in-place loops keeps the size, changes only the rows `swapRows (BR i) i` (rows `i` and `BR i` when
+    `BR i < i`, row `i` when `BR i = i`, none otherwise) and its result there depends only on these rows -/
+theorem C12_model_inplace_body (o : Obj) (size nc i : Nat) :
+    Local (revInBody o size nc i) (rowsW nc (swapRows (br i (log2 size)) i)) :=
+  Model.Ntt.revInBody_local o size nc i
+
+/-- both in-place loops (swap when `BR i < i`; the zero-extending variant when `extension > 1`) on `2^d` rows, `d ≤ 32`:
+    the rows in any order.  `revInBody` is the loop body (Lemmas/NttParRev.lean); for `is' = List.range (2^d)` this is the
+    model's own loop.  (With `offset_cols ≠ 0` or `ncols ≠ ncols_all` the model aborts before the loop.) -/
+theorem C12_model_reversal_inplace_any_order (o : Obj) (dst src : Buf) (d nc : Nat) (hd : d ≤ 32)
+    (is' : List Nat) (hp : is'.Perm (List.range (2 ^ d))) :
+    reversePermutation o dst src true (2 ^ d) 0 nc nc = .ok (is'.foldl (fun a i => revInBody o (2 ^ d) nc i a) src) := by
+  rw [Model.Ntt.reversePermutation_in_eq, iter_eq_foldl]
+  congr 1
+  refine (locals_any_order (fun i => revInBody o (2 ^ d) nc i) _
+    (fun i => Model.Ntt.revInBody_local o (2 ^ d) nc i) _ _ hp ?_ src).symm
+  intro i hi i' hi' hne
+  have hlog : log2 (2 ^ d) = d := Nat.log2_two_pow
+  have hi := List.mem_range.1 ((hp.mem_iff).1 hi)
+  have hi' := List.mem_range.1 ((hp.mem_iff).1 hi')
+  have key : ∀ i, i < 2 ^ d → ∀ l : Nat × Nat, (l.1 = 0 ∧ rowsW nc (swapRows (br i (log2 (2 ^ d))) i) l.2)
+      → wordsOf nc (swapFoot 0 d i) l := by
+    rintro i hi ⟨b, j⟩ ⟨hb, r, hr, h1, h2⟩
+    rw [hlog, Model.Ntt.br_eq_bitrev d i hd hi] at hr
+    exact ⟨r, ⟨hb, hr⟩, h1, h2⟩
+  exact ((C12_inplace_reversal 0 d i i' hi hi' hne).words nc).congr (key i hi) (key i hi) (key i' hi') (key i' hi')
+
+/-! ### a whole `NTT_iters` call -/
+
+/-- `nttItersIn ordR ordB` (Lemmas/NttParIters.lean) is the text of the model's `nttIters` with the row loop of the bit
+    reversal executed in the order `ordR` and the batch loop of every pass `p = (s, sInc)` in the order `ordB p`.
+    Whatever these orders, the result (buffers or abort) is that of the model's `nttIters`, for every `size` with
+    `log2 size ≤ 32` (sizes that are not a power of two abort before any loop), every pointer relation, column window,
+    `nphase`, direction. -/
+theorem C12_model_nttIters_any_order (o : Obj) (dstB srcB auxB : Buf) (dstIsSrc : Bool) (size oc nc nca nphase : Nat)
+    (inverse extend : Bool) (hd : log2 size ≤ 32)
+    (ordR : List Nat) (hR : ordR.Perm (List.range size))
+    (ordB : Nat × Nat → List Nat) (hB : ∀ p, (ordB p).Perm (List.range (size / 2 ^ p.2))) :
+    nttItersIn ordR ordB o dstB srcB auxB dstIsSrc size oc nc nca nphase inverse extend
+      = nttIters o dstB srcB auxB dstIsSrc size oc nc nca nphase inverse extend := by
+  rw [nttIters_eq_with]
+  unfold nttItersIn
+  apply nttItersWith_congr
+  · intro hsz dst src ip
+    cases ip with
+    | false =>
+      unfold reversePermutationIn
+      simp only [Bool.not_false, if_true]
+      exact (C12_model_reversal_out_any_order o dst src size oc nc nca ordR hR).symm
+    | true =>
+      unfold reversePermutationIn
+      simp only [Bool.not_true, Bool.false_eq_true, if_false]
+      by_cases hc : oc = 0 ∧ nc = nca
+      · obtain ⟨rfl, rfl⟩ := hc
+        obtain ⟨d, rfl, hd'⟩ : ∃ d, size = 2 ^ d ∧ d ≤ 32 := ⟨log2 size, hsz.symm, hd⟩
+        have hc' : (!decide (0 = 0 ∧ nc = nc)) = false := by simp
+        rw [if_neg (by rw [hc']; simp)]
+        exact (C12_model_reversal_inplace_any_order o dst src d nc hd' ordR hR).symm
+      · have hc' : (!decide (oc = 0 ∧ nc = nca)) = true := by rw [decide_eq_false hc]; rfl
+        rw [if_pos hc', Model.Ntt.reversePermutation_in_assert o dst src size oc nc nca hc]
+  · intro st p
+    unfold passIn
+    exact (C12_model_pass_any_order o size (log2 size) nc inverse extend st p (ordB p) (hB p)).symm
+
+/-! ### whole `NTT` / `INTT` / `extendPol` calls
+
+  `nttIn ord`, `inttIn ord`, `extendPolIn ordI ordN` (Lemmas/NttParIters.lean) are the texts of the model's `ntt`, `intt`,
+  `extendPol` with EVERY parallel loop (bit reversal rows, batches of every pass, scatter rows, of every column block)
+  folded over the lists of `ord : Orders size` — arbitrary permutations of the index ranges. -/
+
+/-- the column-block loop: same state after `m` blocks, and the column offset is `blkOff … m` (so that every scatter
+    stays inside a row) -/
+theorem C12_model_blockLoop_any_order {size : Nat} (ord : Orders size) (o : Obj) (aux : Buf) (dstIsSrc : Bool) (dst0 srcB : Buf)
+    (ncols nphase nblock ncols_alloc : Nat) (inverse extend : Bool) (hd : log2 size ≤ 32) (h1 : 1 ≤ nblock) :
+    ∀ m, m ≤ nblock →
+      iter m (.ok (dst0, srcB, 0)) (fun ib st => nttBlockIn (ord.rev ib) (ord.batch ib) (ord.scat ib) o aux dstIsSrc size ncols
+          nphase (ncols / nblock) (ncols % nblock) ncols_alloc inverse extend ib st)
+        = iter m (.ok (dst0, srcB, 0)) (nttBlock o aux dstIsSrc size ncols nphase (ncols / nblock) (ncols % nblock) ncols_alloc
+            inverse extend) ∧
+      ∀ dst src oc, iter m (.ok (dst0, srcB, 0)) (nttBlock o aux dstIsSrc size ncols nphase (ncols / nblock) (ncols % nblock)
+          ncols_alloc inverse extend) = .ok (dst, src, oc) → oc = blkOff (ncols / nblock) (ncols % nblock) m := by
+  intro m
+  induction m with
+  | zero =>
+    intro _
+    refine ⟨rfl, ?_⟩
+    intro dst src oc h
+    rw [iter_zero] at h
+    injection h with h
+    rw [(Prod.mk.inj (Prod.mk.inj h).2).2.symm]
+    simp [blkOff]
+  | succ m ih =>
+    intro hm
+    obtain ⟨i1, i2⟩ := ih (by omega)
+    rw [iter_succ, iter_succ, i1]
+    generalize iter m (.ok (dst0, srcB, 0)) (nttBlock o aux dstIsSrc size ncols nphase (ncols / nblock) (ncols % nblock)
+      ncols_alloc inverse extend) = S at i2
+    have htot : blkOff (ncols / nblock) (ncols % nblock) nblock = ncols := blkOff_total ncols nblock (by omega)
+    cases S with
+    | error e => exact ⟨rfl, fun dst src oc h => by simp [nttBlock] at h⟩
+    | ok r =>
+      obtain ⟨dst, src, oc⟩ := r
+      have hoc := i2 dst src oc rfl
+      have hfit : oc + (ncols / nblock + (if m < ncols % nblock then 1 else 0)) ≤ ncols := by
+        have := blkOff_mono (ncols / nblock) (ncols % nblock) (m + 1) nblock hm
+        rw [blkOff_succ, htot, ← hoc] at this
+        exact this
+      unfold nttBlockIn nttBlock
+      simp only
+      rw [C12_model_nttIters_any_order o _ src aux false size oc _ ncols nphase inverse extend hd _ (ord.rev_perm m) _
+        (ord.batch_perm m)]
+      cases hres : nttIters o (Array.replicate (size * ncols_alloc) 0#64) src aux false size oc
+          (ncols / nblock + (if m < ncols % nblock then 1 else 0)) ncols nphase inverse extend with
+      | error e => exact ⟨rfl, fun dst src oc h => by simp at h⟩
+      | ok r =>
+        obtain ⟨d, x⟩ := r
+        simp only
+        rw [C12_model_scatter_any_order dst d size ncols oc _ hfit _ (ord.scat_perm m)]
+        refine ⟨rfl, ?_⟩
+        intro dst' src' oc' h
+        injection h with h
+        rw [← (Prod.mk.inj (Prod.mk.inj h).2).2, blkOff_succ, hoc]
+        rfl
+
+theorem C12_model_ntt_any_order {size : Nat} (ord : Orders size) (o : Obj) (mode : DstMode) (dstB srcB : Buf)
+    (ncols nphase nblock : Nat) (inverse extend : Bool) (hd : log2 size ≤ 32) :
+    nttIn ord o mode dstB srcB ncols nphase nblock inverse extend
+      = ntt o mode dstB srcB size ncols nphase nblock inverse extend := by
+  unfold nttIn ntt
+  by_cases h0 : ncols = 0 ∨ size = 0
+  · rw [if_pos h0, if_pos h0]
+  · rw [if_neg h0, if_neg h0]
+    obtain ⟨b1, b2⟩ := clampBlock_range nblock ncols (by omega)
+    generalize clampBlock nblock ncols = nb at b1 b2
+    unfold nttBlocksIn nttBlocks
+    simp only
+    by_cases hnb : nb ≤ 1
+    · rw [if_pos hnb, if_pos hnb]
+      exact C12_model_nttIters_any_order o dstB srcB _ _ size 0 ncols ncols nphase inverse extend hd _ (ord.rev_perm 0) _
+        (ord.batch_perm 0)
+    · rw [if_neg hnb, if_neg hnb]
+      rw [(C12_model_blockLoop_any_order ord o _ _ _ srcB ncols nphase nb _ inverse extend hd b1 nb (Nat.le_refl _)).1]
+      rfl
+
+theorem C12_model_intt_any_order {size : Nat} (ord : Orders size) (o : Obj) (mode : DstMode) (dstB srcB : Buf)
+    (ncols nphase nblock : Nat) (extend : Bool) (hd : log2 size ≤ 32) :
+    inttIn ord o mode dstB srcB ncols nphase nblock extend = intt o mode dstB srcB size ncols nphase nblock extend := by
+  unfold inttIn intt
+  rw [C12_model_ntt_any_order ord o _ dstB srcB ncols nphase nblock true extend hd]
+
+/-- `extendPol`: both transforms with all their parallel loops in arbitrary orders -/
+theorem C12_model_extendPol_any_order {n nExt : Nat} (ordI : Orders n) (ordN : Orders nExt) (o : Obj) (same : Bool)
+    (outB inB : Buf) (ncols nphase nblock : Nat) (hn : log2 n ≤ 32) (hne : log2 nExt ≤ 32) :
+    extendPolIn ordI ordN o same outB inB ncols nphase nblock = extendPol o same outB inB nExt n ncols nphase nblock := by
+  unfold extendPolIn extendPol
+  cases mkObj nExt (nExt / n) with
+  | none => rfl
+  | some oext =>
+    simp only
+    rw [C12_model_intt_any_order ordI _ _ outB inB ncols nphase nblock true hn]
+    cases intt (refreshCache o n) (if same = true then DstMode.same else DstMode.other) outB inB n ncols nphase nblock true with
+    | error e => rfl
+    | ok r =>
+      obtain ⟨out1, x⟩ := r
+      simp only
+      rw [C12_model_ntt_any_order ordN oext .same #[] out1 ncols nphase nblock false false hne]
+      rfl
+
+end Model
+
+/-! ### Merkle builders (Model/Sponge.lean)
+
+  The model of the tree builders is purely functional (`rows.flatMap leaf`, `nextLevel`, `upperLevels`): it has no
+  indexed writes whose order could be permuted.  Two kinds of statements: (i) about the model itself — each word of a
+  level is a function of the two children of its node only; (ii) about an imperative rendering of the C loops on one
+  tree buffer (`leafStep`, `nodeStep`, `merkleTreeIn` of Lemmas/MerklePar.lean, written by hand from the loops, NOT
+  executed against the C++): its iterations have the footprints of `C12_merkle_leaves` / `C12_merkle_level`, can be
+  executed in any order, and fill the buffer with exactly the model's `merkleTree`. -/
+
+section Merkle
+open GoldilocksVerif.Model
+
+/-- (i) the model: word `j` of the leaf level depends on row `j / 4` only; word `j` of a level on the children words
+    `[8·(j/4), 8·(j/4) + 8)` of the previous level only -/
+theorem C12_model_merkle_dependency (leaf node : List Wd → List Wd) (hl : ∀ x, (leaf x).length = 4)
+    (hn : ∀ x, (node x).length = 4) :
+    (∀ (rows : List (List Wd)) (j : Nat), j < 4 * rows.length →
+      (rows.flatMap leaf).getD j 0#64 = (leaf (rows.getD (j / 4) [])).getD (j % 4) 0#64) ∧
+    (∀ (k : Nat) (lvl : List Wd) (j : Nat), j < 4 * k →
+      (nextLevel node k lvl).getD j 0#64 = (node ((lvl.drop (8 * (j / 4))).take 8)).getD (j % 4) 0#64) := by
+  refine ⟨fun rows j hj => ?_, fun k lvl j hj => ?_⟩
+  · rw [leaves_getD leaf hl, if_pos hj]
+  · rw [nextLevel_getD node hn, if_pos hj]
+
+/-- (ii) leaf loop on the tree buffer `t` (`leafStep … i` = `linear_hash(&tree[4i], row i)`), rows in any order: the
+    leaf digests of the model, the rest of the buffer untouched -/
+theorem C12_model_merkle_leaves_any_order (leaf : List Wd → List Wd) (hl : ∀ x, (leaf x).length = 4)
+    (rows : List (List Wd)) (t : List Wd) (ht : 4 * rows.length ≤ t.length)
+    (is' : List Nat) (hp : is'.Perm (List.range rows.length)) :
+    is'.foldl (fun t i => leafStep leaf rows i t) t = rows.flatMap leaf ++ t.drop (4 * rows.length) := by
+  rw [← leafLoop_seq_eq leaf hl rows t ht]
+  refine any_order (fun i => hashIter (fun _ => leaf (rows.getD i [])) (fun _ => hl _) 0 0 (4 * i)) _ _ hp ?_ t
+  intro i _ i' _ hne
+  refine (C12_merkle_leaves 0 1 1 0 i i' (by decide) hne).congr ?_ ?_ ?_ ?_
+  all_goals
+    rintro ⟨b, j⟩ ⟨hb, h1, h2⟩
+    simp only at hb h1 h2
+    omega
+
+/-- (ii) level loop on the tree buffer `t` (`nodeStep … i` = `hash(&tree[off + 4p + 4i], &tree[off + 8i])`: the level of
+    `p` nodes starts at `off`, the next one right behind it), `n ≤ p/2` nodes in any order: the model's `nextLevel` -/
+theorem C12_model_merkle_level_any_order (node : List Wd → List Wd) (hn : ∀ x, (node x).length = 4)
+    (t : List Wd) (off p n : Nat) (hnp : 2 * n ≤ p) (hfit : off + 4 * p + 4 * n ≤ t.length)
+    (is' : List Nat) (hp : is'.Perm (List.range n)) :
+    is'.foldl (fun t i => nodeStep node off p i t) t
+      = t.take (off + 4 * p) ++ nextLevel node n (t.drop off) ++ t.drop (off + 4 * p + 4 * n) := by
+  rw [← levelLoop_seq_eq node hn t off p n hnp hfit]
+  refine any_order (fun i => hashIter node hn (off + 8 * i) 8 (off + 4 * p + 4 * i)) _ _ hp ?_ t
+  intro i hi i' hi' hne
+  have hi := List.mem_range.1 ((hp.mem_iff).1 hi)
+  have hi' := List.mem_range.1 ((hp.mem_iff).1 hi')
+  refine (C12_merkle_level 0 off p 1 n i i' (by omega) hi hi' hne).congr ?_ ?_ ?_ ?_
+  all_goals
+    rintro ⟨b, j⟩ ⟨hb, h1, h2⟩
+    simp only at hb h1 h2
+    exact ⟨hb, by omega, by omega⟩
+
+/-- (ii) the whole builder on a tree buffer `t0` of the right length: leaf loop in the order `ordLeaf`, the level loop of
+    `n` iterations in the order `ords n` — whatever these orders, the buffer ends up as the model's `merkleTree` -/
+theorem C12_model_merkle_tree_any_order (leaf node : List Wd → List Wd) (hl : ∀ x, (leaf x).length = 4)
+    (hn : ∀ x, (node x).length = 4) (rows : List (List Wd)) (ordLeaf : List Nat) (ords : Nat → List Nat)
+    (hpl : ordLeaf.Perm (List.range rows.length)) (hpo : ∀ n, (ords n).Perm (List.range n))
+    (t0 : List Wd) (ht0 : t0.length = (merkleTree leaf node rows).length) :
+    merkleTreeIn leaf node rows ordLeaf ords t0 = merkleTree leaf node rows := by
+  have hlen : 4 * rows.length ≤ t0.length := by
+    rw [ht0]; unfold merkleTree; simp only [List.length_append, leaves_length leaf hl rows]; omega
+  apply merkleTreeIn_eq leaf node hl hn rows ordLeaf ords t0
+  · rw [C12_model_merkle_leaves_any_order leaf hl rows t0 hlen ordLeaf hpl,
+      C12_model_merkle_leaves_any_order leaf hl rows t0 hlen _ (List.Perm.refl _)]
+  · intro off p n t hnp
+    unfold levelLoop
+    exact any_order (fun i => hashIter node hn (off + 8 * i) 8 (off + 4 * p + 4 * i)) _ _ (hpo n) (by
+      intro i hi i' hi' hne
+      have hi := List.mem_range.1 (((hpo n).mem_iff).1 hi)
+      have hi' := List.mem_range.1 (((hpo n).mem_iff).1 hi')
+      refine (C12_merkle_level 0 off p 1 n i i' (by omega) hi hi' hne).congr ?_ ?_ ?_ ?_
+      all_goals
+        rintro ⟨b, j⟩ ⟨hb, h1, h2⟩
+        simp only at hb h1 h2
+        exact ⟨hb, by omega, by omega⟩) t
+  · exact ht0
+
+end Merkle
+
+-- the any-order theorem is not vacuous: an explicit non-sequential order of the 4 batches of a pass on 16 rows, B = 4
+example (o : Model.Ntt.Obj) (st : Model.Ntt.Buf × Model.Ntt.Buf) :
+    [3, 1, 0, 2].foldl (fun st b => Model.Ntt.passBatch o 16 4 3 1 2 false false b st) st
+      = (List.range (16 / 2 ^ 2)).foldl (fun st b => Model.Ntt.passBatch o 16 4 3 1 2 false false b st) st :=
+  C12_model_batches_any_order o 16 4 3 1 2 false false st [3, 1, 0, 2] (by decide)
 
 end GoldilocksVerif.C12
